@@ -9,6 +9,8 @@
 
   The statement's clauses, each for ALL configurations and ALL AMF choices (primitives AES / HMAC / CMAC / CTR are parameters):
     C01_res_star                 RES* returned and K_AMF / K_NASenc / K_NASint installed = the network's vector (C05 + TS 33.102 AUTN)
+    C01_authentication_response_accepted  the judge's step on the Authentication Response built from that RES* raises no clause (C09);
+                                 a different RES* is refused (`C01_wrong_res_star_refused`)
     C01_registration_protected   Security Mode Complete: header type 4, NAS COUNT 0; Registration Complete: header type 2,
                                  NAS COUNT 1 (= previous + 1); both pass the reference AMF's NAS-security clause (MAC valid
                                  under the network-derived keys, the plain message recovered) (C06)
@@ -19,12 +21,13 @@
                                  procedure code), has its mandatory IEs with the assigned criticality, and carries the
                                  AMF-UE-NGAP-ID / RAN-UE-NGAP-ID / NAS-PDU it was given (C13)
   Partial: the end-to-end composition `C01_accepted_statement` (judge (emulate cfg (dl cfg choices)) = accept) is NOT proved:
-  it needs "the AMF's decoder inverts the encoder on these PDUs" (the composite APER round trip C04 is proving) and the seven
-  NAS parse lemmas threaded through the state machine. The reference AMF is evaluated on every real transcript instead
+  it needs the templates' `ConfPdu` for all in-range arguments (then `C01_amf_sees_built_pdu` = C04 + C03 gives "the AMF's decoder
+  inverts the encoder on these PDUs") and the NAS parse lemmas threaded through the judge's state machine. The reference AMF is evaluated on every real transcript instead
   (spec column of the `convo` op), and the clauses above are its per-step obligations. Traffic mode (XDP) is not modelled.
 -/
 import Stgutg.Proofs.Emulator
 import Stgutg.Proofs.EmulatorWitness
+import Stgutg.Props.C09
 import Stgutg.Props.C11
 
 namespace Stgutg.Props.C01
@@ -85,6 +88,51 @@ example :
       = some [0, 0, 1, 0, 1, 0, 0, 0, 0, 0, 0, 0, 0, 0, 3] :=
   ⟨by decide, by decide, by decide, by decide⟩
 
+theorem table_authenticationResponse :
+    Spec.Ts24501.tableByName "AuthenticationResponse" = some Spec.Ts24501.authenticationResponse := by rfl
+
+/-- **C01_authentication_response_accepted.** The reference AMF's step on the AUTHENTICATION RESPONSE: for every 16-octet
+    RES* equal to the XRES* of the network's vector (which `C01_res_star` gives for what `DeriveRESstarAndSetKey` returns), the
+    octets `GetAuthenticationResponse(resStar, "")` produces parse, with the standard's parser under table 8.2.2.1.1, as an
+    AUTHENTICATION RESPONSE whose authentication response parameter is XRES*: the judge raises no clause and moves the UE from
+    "authentication request sent" to "security mode command sent" (C09 + the judge's definition). -/
+theorem C01_authentication_response_accepted (s : Spec.Amf.St) (k : Nat) (u : Spec.Amf.UeSt) (resStar : Bytes)
+    (h16 : resStar.length = 16) (hreg : u.reg = .authSent) (hres : resStar = u.aka.resStar) :
+    ∃ bs, Nas.Ctor.encodeWith Gen.Nas.layout_AuthenticationResponse (Nas.Ctor.authenticationResponse resStar []) = .ok bs ∧
+      Spec.Amf.onPlainUplink s k u bs = s.setUe { u with reg := .smcSent } := by
+  obtain ⟨w, bs, hw, henc, hparse⟩ := Props.C09.C09_ctor_authenticationResponse resStar [] (.inl h16)
+  refine ⟨bs, henc, ?_⟩
+  have hne : resStar ≠ [] := by intro h; simp [h] at h16
+  have hw' : Spec.Ts24501.authenticationResponse.wire = some w := by
+    unfold Props.C09.wireOf at hw
+    have : Gen.Nas.layout_AuthenticationResponse.name = "AuthenticationResponse" := rfl
+    rw [this, table_authenticationResponse] at hw
+    exact hw
+  unfold Spec.Amf.onPlainUplink Spec.Amf.parseNas
+  rw [hw']
+  rw [if_neg hne, if_neg (fun h => hne h.1)] at hparse
+  simp only [Option.bind_some, hparse]
+  simp [Spec.Ts24501.Intended.authenticationResponse, Spec.Ts24501.Intended.present, Spec.Amf.optIE, hreg, hres]
+
+/-- … and a RES* that differs from XRES* is refused under the clause `res-star` -/
+theorem C01_wrong_res_star_refused (s : Spec.Amf.St) (k : Nat) (u : Spec.Amf.UeSt) (resStar : Bytes)
+    (h16 : resStar.length = 16) (hreg : u.reg = .authSent) (hres : resStar ≠ u.aka.resStar) :
+    ∃ bs, Nas.Ctor.encodeWith Gen.Nas.layout_AuthenticationResponse (Nas.Ctor.authenticationResponse resStar []) = .ok bs ∧
+      Spec.Amf.onPlainUplink s k u bs = (s.fail k "res-star").setUe { u with reg := .smcSent } := by
+  obtain ⟨w, bs, hw, henc, hparse⟩ := Props.C09.C09_ctor_authenticationResponse resStar [] (.inl h16)
+  refine ⟨bs, henc, ?_⟩
+  have hne : resStar ≠ [] := by intro h; simp [h] at h16
+  have hw' : Spec.Ts24501.authenticationResponse.wire = some w := by
+    unfold Props.C09.wireOf at hw
+    have : Gen.Nas.layout_AuthenticationResponse.name = "AuthenticationResponse" := rfl
+    rw [this, table_authenticationResponse] at hw
+    exact hw
+  unfold Spec.Amf.onPlainUplink Spec.Amf.parseNas
+  rw [hw']
+  rw [if_neg hne, if_neg (fun h => hne h.1)] at hparse
+  simp only [Option.bind_some, hparse]
+  simp [Spec.Ts24501.Intended.authenticationResponse, Spec.Ts24501.Intended.present, Spec.Amf.optIE, hreg, hres]
+
 /-! ### security header type, MAC, NAS COUNT -/
 
 /-- **C01_registration_protected.** For every pair of plain messages, every key pair and primitives: when the UE context holds
@@ -108,9 +156,9 @@ theorem C01_registration_protected (P : Prims) (hP : PrimsOk P) (sec : UeSec) (u
   have hin1 : InStep r1.1 (Spec.Amf.accepted u 4 0) := ⟨by rw [ain.1]; rfl, ain.2⟩
   obtain ⟨o2, ho2, b1, b6, br, bin, bc⟩ := protected_step P hP r1.1 (Spec.Amf.accepted u 4 0) hin1 rc 2 false rfl
   simp only [Bool.false_eq_true, if_false] at b6 br bc
-  have hc1 : cval r1.1.ulCount = 1 := by rw [show r1.1 = (Model.NasProtect.encodeNasPduWithSecurity P sec smc 4 true true).1 from rfl, ac]
+  have hc1 : cval r1.1.ulCount = 1 := ac.trans (by decide)
   rw [hc1] at b6 br bc
-  refine ⟨o1, o2, ho1, ho2, a1, b1, ?_, ?_, by rw [bc], ⟨by rw [bin.1]; rfl, bin.2⟩⟩
+  refine ⟨o1, o2, ho1, ho2, a1, b1, ?_, ?_, bc.trans (by decide), ⟨by rw [bin.1]; rfl, bin.2⟩⟩
   · exact receiveUl_of_receive P u true [4] o1 smc 0 (by rw [a1]; rfl) (by rw [a1]; rfl) (by rw [a1]; rfl) ar
   · exact receiveUl_of_receive P _ true [2] o2 rc 1 (by rw [b1]; rfl) (by rw [b1]; rfl) (by rw [b1]; rfl) br
 
@@ -221,15 +269,24 @@ theorem C01_ngap_initial_context_setup_response (E : Model.Convert.Ext) (plmn : 
 
 /-! ### the end-to-end statement (not proved) -/
 
-/-- **the C04 obligation C01 rests on**: on the PDU `v` a wrapper hands to the encoder, the library decoder inverts the
-    library encoder and the X.691 specification encoder produces the same octets — i.e. `Spec.Amf.decodeNgap` finds `v` -/
-def AperRoundTripOn (v : Aper.Val) : Prop :=
-  ∃ b, Builders.encodePdu v = .ok b ∧ Spec.Amf.decodeNgap b = some v
+/-- **C01_amf_sees_built_pdu.** "The AMF's decoder inverts the encoder on this PDU", from the composite APER round trip
+    (C04) and the canonical-encoding theorem (C03): whenever the PDU a wrapper hands to `ngap.Encoder` is within its
+    constraints (`ConfPdu`: the identifiers in range — AMF-UE-NGAP-ID < 2^40, RAN-UE-NGAP-ID < 2^32, PDU session ID ≤ 255 —,
+    the NAS-PDU and every open-type content shorter than 16384 octets) and regular, the reference AMF decodes the octets on
+    the wire to exactly that PDU. Every C13 fact above (`C01_ngap_*`) is then a fact about what the AMF sees. The two
+    hypotheses are decidable predicates on the value; that the builder templates satisfy them for ALL in-range arguments is
+    not proved here (it is evaluated on every PDU of the witness and of every real transcript by the judge itself). -/
+theorem C01_amf_sees_built_pdu (v : Aper.Val) (b : Bytes)
+    (hc : Props.C04.ConfPdu Spec.Amf.ngapFuel v)
+    (hr : Proofs.AperSpec.regular Gen.Ngap.schema Spec.Amf.ngapFuel (.struct Gen.Ngap.pduId) false v = true)
+    (h : Builders.encodePdu v = .ok b) : Spec.Amf.decodeNgap b = some v :=
+  amf_sees_built_pdu v b hc hr h
 
-/-- when that obligation holds for a PDU, the reference AMF reads exactly the PDU the builder made: every C13 fact above is
-    a fact about what the AMF sees -/
-theorem C01_amf_sees_built_pdu (v : Aper.Val) (h : AperRoundTripOn v) :
-    ∃ b, Builders.encodePdu v = .ok b ∧ Spec.Amf.decodeNgap b = some v := h
+set_option maxRecDepth 1000000 in
+/-- the hypotheses are satisfiable: C04's NG SETUP REQUEST (four IEs in open types) -/
+example : Props.C04.ConfPdu Spec.Amf.ngapFuel Props.C04.ngSetupRequest ∧
+    Proofs.AperSpec.regular Gen.Ngap.schema Spec.Amf.ngapFuel (.struct Gen.Ngap.pduId) false Props.C04.ngSetupRequest = true :=
+  ⟨Props.C04.ngSetupRequest_conf, by decide +kernel⟩
 
 /-- what C01 asks of the model as a whole: for every well-formed configuration and every choice of a conformant AMF
     (`dl` = the downlink messages it sends), the reference AMF judges the model's transcript `accept`. -/
